@@ -22,7 +22,8 @@ ASSUMPTIONS = ["validation happens at producer exit only (never mid-write)",
 MIN_NONTRIVIAL = {"quick": 300, "thorough": 3000}
 REQUIRED_PROBES = ["create_exit", "rlencode", "index_pixels", "index_bins"]
 REQUIRED_FEATURES = ["op:create", "op:create-unordered", "op:merge", "op:coarsen", "op:zoomify", "op:scool",
-                     "op:cli-load", "op:cli-cload-pairs", "create:ensure_sorted", "big:edge-inside-run", "big:edge-on-run-start",
+                     "op:cli-load", "op:cli-cload-pairs", "op:cli-cload-tabix", "tabix:max-split:>=3", "cload:records-on-unlisted-contigs",
+                     "create:ensure_sorted", "big:edge-inside-run", "big:edge-on-run-start",
                      "big:edge-one-past-run-start"]
 SHARD_TIMEOUT = {"quick": 1800, "thorough": 7200}
 
@@ -199,8 +200,8 @@ def run_histories(ctx, shard):
             c.desc["history"] = hist
             nops = int(rng.integers(3, 8))
             ops = ["create", "create_unordered"] + [
-                ["create", "create_unordered", "merge", "coarsen", "zoomify", "scool", "cli_load", "cli_cload"][
-                    int(rng.integers(8))] for _ in range(nops)]
+                ["create", "create_unordered", "merge", "coarsen", "zoomify", "scool", "cli_load", "cli_cload",
+                 "cli_cload_tabix"][int(rng.integers(9))] for _ in range(nops)]
             for oi, op in enumerate(ops):
                 try:
                     step(ctx, c, rng, op, oi, d, files, pool, hist, bt, bins, n, symm, runner, cli)
@@ -306,7 +307,7 @@ def step(ctx, c, rng, op, oi, d, files, pool, hist, bt, bins, n, symm, runner, c
         cooler.create_scool(out, bins, cells, ordered=True, **kw)
         c.feature("op:scool")
         hist.append({"op": "scool", "cells": len(cells)})
-    elif op in ("cli_load", "cli_cload"):
+    elif op in ("cli_load", "cli_cload", "cli_cload_tabix"):
         if any(" " in nm for nm, _ in bt):
             return
         bed = os.path.join(d, "bins.bed")
@@ -323,12 +324,41 @@ def step(ctx, c, rng, op, oi, d, files, pool, hist, bt, bins, n, symm, runner, c
                 args.append("-N")
             r = runner.invoke(cli, args)
             c.feature("op:cli-load")
+        elif op == "cli_cload_tabix":
+            import pysam
+            bl = gen.bt_bins_list(bt)
+            rank = {nm: i for i, (nm, _) in enumerate(bt)}
+            recs = []
+            for _ in range(int(rng.integers(5, 80))):
+                a, b_ = bl[int(rng.integers(len(bl)))], bl[int(rng.integers(len(bl)))]
+                r = (a[0], int(rng.integers(a[1], a[2])) + 1, b_[0], int(rng.integers(b_[1], b_[2])) + 1)
+                if (rank[r[0]], r[1]) > (rank[r[2]], r[3]):
+                    r = (r[2], r[3], r[0], r[1])
+                recs.append(r)
+            recs.sort(key=lambda r: (rank[r[0]], r[1]))
+            txt = os.path.join(d, f"in{oi}.sorted.pairs")
+            write_text(txt, recs)
+            gz = pysam.tabix_index(txt, force=True, seq_col=0, start_col=1, end_col=1)
+            nsplit = int([1, 2, 3, 4, 6, 9][int(rng.integers(6))])
+            args = ["cload", "tabix", "-c2", "3", "-p2", "4", "-p", str(int(rng.integers(1, 3))), "-s", str(nsplit), bed, gz, out]
+            r = runner.invoke(cli, args)
+            c.feature("op:cli-cload-tabix", f"tabix:max-split:{'>=3' if nsplit >= 3 else '<=2'}")
         else:
             bl = gen.bt_bins_list(bt)
             recs = []
             for _ in range(int(rng.integers(1, 40))):
                 a, b_ = bl[int(rng.integers(len(bl)))], bl[int(rng.integers(len(bl)))]
-                recs.append((a[0], int(rng.integers(a[1], a[2])) + 1, b_[0], int(rng.integers(b_[1], b_[2])) + 1))
+                rec = [a[0], int(rng.integers(a[1], a[2])) + 1, b_[0], int(rng.integers(b_[1], b_[2])) + 1]
+                u = rng.random()
+                if u < 0.1:
+                    rec[0] = "chrUnlisted"          # contigs that are not in the bin table: such records are dropped
+                elif u < 0.2:
+                    rec[2] = "chrUnlisted"
+                elif u < 0.25:
+                    rec[0] = rec[2] = "chrUnlisted"
+                recs.append(tuple(rec))
+            if any("chrUnlisted" in r for r in recs):
+                c.feature("cload:records-on-unlisted-contigs")
             txt = os.path.join(d, f"in{oi}.pairs")
             write_text(txt, recs)
             args = ["cload", "pairs", "-c1", "1", "-p1", "2", "-c2", "3", "-p2", "4", bed, txt, out,
